@@ -186,6 +186,7 @@ func (c *Ctx) Paths(fn *ssa.Function, po PO) []*Path {
 	if po.Visits == 0 {
 		po.Visits = 2
 	}
+	po.Params = canonParamNames(fn, po.Params) // positional names follow the pinned parameter order
 	k := fn.String() + "|" + po.key()
 	if ps, ok := c.cache[k]; ok {
 		if ps.err != nil {
